@@ -32,7 +32,7 @@ var allLeaves = []ref.Kind{ref.KInt8, ref.KUint8, ref.KInt16, ref.KUint16, ref.K
 
 func typeOpts() gen.TypeOpts {
 	return gen.TypeOpts{Depth: 4, Width: 4, Leaves: allLeaves, MapKeys: gen.AllScalars, Structs: true, Tuples: true,
-		Maps: true, Lists: true, Template: true, ZeroMem: true}
+		Maps: true, Lists: true, Template: true, ZeroMem: true, CompositeKeys: true}
 }
 
 func genGrammar(t *rapid.T) Case {
